@@ -14,7 +14,7 @@ func init() {
 		ID: "C08", Gen: genC08, Run: runC08, Quick: 1500, Thorough: 200000,
 		Real: []string{"pkg/exporter (InitExportingProcess, SendSet, refresh goroutine, connection-check goroutine)", "pkg/entities (set/record/message builders, codec)", "pkg/registry"},
 		Stub: []string{"OS sockets (simnet)", "wall clock (synctest bubble)"},
-		Rule: "plans are generated from the run seed (session of template/data SendSet calls, clock advances around refresh ticks, counter placed near 2^32 by hook); non-trivial = at least 3 successful sends; distinct = distinct event-log hash",
+		Rule: "plans are generated from the run seed (session of template/data SendSet calls, clock advances around refresh ticks, counter placed near 2^32 by hook; a second sender, a slow collector, sends after Close, two exporting processes at the same time); non-trivial = at least 3 successful sends; distinct = distinct event-log hash",
 	})
 }
 
